@@ -79,6 +79,13 @@ def run(ctx):
         m = re.match(r"^bin\(A:([\w:]+)\{", pay)
         kind = m.group(1) if m else pay
         root_fn = P.fn(fn.parent) if fn.kind == "closure" and fn.parent else fn
+        known_homes = {tc.path, prov.path, wd.path, acceptor.path, hb.path, fr_.add_decimals[3].path}
+        if root_fn.path not in known_homes:
+            # a message-building helper called from exactly one place: judge it in its caller's context
+            cf_, lv_ = common.lift_value(P, root_fn, dict(v[3])["contract_addr"])
+            if cf_.path != root_fn.path:
+                root_fn = P.fn(cf_.parent) if cf_.kind == "closure" and cf_.parent else cf_
+                tgt = set(ctx.roots(lv_))
         tpl = None
         if root_fn.path == tc.path and kind == "cw20::Cw20ExecuteMsg::Transfer":
             tpl = tgt == {P_(tc, 0, ".info~Token.contract_addr")} and empty_funds
